@@ -20,8 +20,8 @@ EXPLANATION = (
     'an alias / a callee). R06.3: every write to state that outlives the call performed by decode-reachable code '
     'is a guarded lazy initialisation (write to self._a control-dependent on a test of self._a, or a one-time '
     'initialiser called under `if not self.flag` that sets the flag) - anything else is a violation. R06.4: '
-    'BP-OSD typestate per call: update_channel_probs precedes every decode of the same ldpc object, results are '
-    'read only after that object\'s decode. R06.5: get_initial_state returns a copy (no alias of its argument).'
+    'BP-OSD typestate per call: update_channel_probs precedes every decode of the same ldpc object, and the result '
+    'is the value returned by that decode() (never a result-buffer attribute, which ldpc refreshes only when OSD runs). R06.5: get_initial_state returns a copy (no alias of its argument).'
 )
 
 _CACHE = {}
@@ -35,11 +35,67 @@ def effects(model) -> Effects:
     return _CACHE[k]
 
 
+def _attrs_read(ci, fn, depth=0, seen=None) -> set:
+    """self attributes read by fn, following properties/methods of the class (transitively)."""
+    seen = seen if seen is not None else set()
+    out = set()
+    for n in ast.walk(fn):
+        if isinstance(n, ast.Attribute) and isinstance(n.value, ast.Name) and n.value.id == 'self':
+            out.add(n.attr)
+            r = ci.find_method(n.attr)
+            if r and n.attr not in seen and depth < 6:
+                seen.add(n.attr)
+                out |= _attrs_read(ci, r[1], depth + 1, seen)
+    return out
+
+
+def cache_key_rule(ctx: Ctx, rule: str) -> None:
+    """Objects that key an lru_cache (the receiver and the arguments of a cached method) must hash by identity or
+    by ALL the state that determines the cached value."""
+    m = ctx.model
+    E = effects(m)
+    cached = [f for f in E.funcs.values() if f.is_cached and f.ci is not None]
+    for f in cached:
+        key_classes = {f.ci.name}
+        a = f.fn.args
+        for p_ in a.args[1:] + a.kwonlyargs:
+            key_classes |= E._ann_class(f.mi, p_.annotation)
+        for cname in sorted(key_classes):
+            ci = m.cls(cname)
+            family = set(ci.mro) | set(m.subclasses(ci))
+            offenders = []
+            for c in sorted(family, key=lambda c: c.name):
+                for meth in ('__eq__', '__hash__'):
+                    if meth in c.methods:
+                        # state that determines behaviour: everything __init__ of the concrete classes stores
+                        stored = set()
+                        for cc in [x for x in family if c in x.mro]:
+                            init = cc.find_method('__init__')
+                            if init:
+                                for n in ast.walk(init[1]):
+                                    if isinstance(n, ast.Attribute) and isinstance(n.ctx, ast.Store) \
+                                            and isinstance(n.value, ast.Name) and n.value.id == 'self':
+                                        stored.add(n.attr)
+                            read = _attrs_read(cc, c.methods[meth])
+                            missing = sorted(x for x in stored if x not in read and not x.startswith('__'))
+                            if missing and 'params' not in read:
+                                offenders.append((c, meth, cc.name, missing))
+            ok = not offenders
+            detail = ''
+            if offenders:
+                c, meth, concrete, missing = offenders[0]
+                detail = (f'{c.name}.{meth} makes instances of {concrete} equal/hash-equal while ignoring {missing}: '
+                          f'{f.qual} is memoised per key, so two objects differing only there share one cached result')
+            ctx.ob(rule, site_of(offenders[0][0].module, offenders[0][0].methods[offenders[0][1]]) if offenders else f.site,
+                   f'cache key of {f.qual}: {cname} instances hash by identity or by all their state', ok, detail,
+                   key=f'{f.qual}|cache-key[{cname}]')
+
+
 def run(ctx: Ctx) -> None:
     ctx.rule('R06.1', 'decode never stores through its syndrome argument (directly or via callees)', floor=9)
     ctx.rule('R06.2', 'values handed out by the cached probability_distribution are never stored through', floor=5)
     ctx.rule('R06.3', 'persistent writes reachable from decode are guarded lazy initialisations only', floor=9)
-    ctx.rule('R06.4', 'BP-OSD typestate: reset priors -> decode -> read result, per ldpc object and call', floor=6)
+    ctx.rule('R06.4', 'BP-OSD typestate: reset priors -> decode -> use the returned value, per ldpc object and call', floor=6)
     ctx.rule('R06.5', 'get_initial_state works on a copy of the syndrome', floor=2)
     ctx.trust('third-party decode()/update_channel_probs() do not write their array arguments; PyMatching decode is '
               'stateless; the sweep decoders\' tie-break generator may advance (allowed by the property)',
@@ -136,6 +192,7 @@ def run(ctx: Ctx) -> None:
                        f'{fi.qual}: store through a cached probability array', False,
                        f'{s.how}: {norm_stmt(s.node)}', key=f'{fi.qual}|frozen')
     ctx.extra['cached_functions'] = [f.qual for f in cached]
+    cache_key_rule(ctx, 'R06.2')
 
     # R06.4
     facts = [f for f in sector.analyse(m) if f.tag == 'typestate']
